@@ -43,6 +43,17 @@ func (c *canon) fail(f string, a ...interface{}) string {
 	return "?"
 }
 
+// pkgLabel prints the package name for the packages the expected forms refer to, the full path for any other
+// (so an import alias that re-points a familiar name is visible).
+func pkgLabel(p *types.Package) string {
+	switch p.Path() {
+	case "google.golang.org/protobuf/reflect/protoreflect", "google.golang.org/protobuf/runtime/protoimpl", "google.golang.org/protobuf/runtime/protoiface",
+		"math", "fmt", "sort", "sync", "reflect", "io", "encoding/binary", "github.com/cosmos/cosmos-proto/runtime":
+		return p.Name()
+	}
+	return p.Path()
+}
+
 func (c *canon) typ(t types.Type) string {
 	return types.TypeString(t, func(p *types.Package) string { return p.Name() })
 }
@@ -89,7 +100,7 @@ func (c *canon) expr(x ast.Expr) string {
 				if tn, ok := info.ObjectOf(t.Sel).(*types.TypeName); ok {
 					return c.typ(tn.Type())
 				}
-				return pn.Imported().Name() + "." + t.Sel.Name
+				return pkgLabel(pn.Imported()) + "." + t.Sel.Name
 			}
 		}
 		return c.expr(t.X) + "." + t.Sel.Name
